@@ -337,7 +337,7 @@ fn one_source(rep: &mut Report, rng: &mut Rng, setup: &Setup, store: &mut Annota
 pub fn run(p: &Params, rep: &mut Report) {
     rep.rule = "seeded setups: 1-5 fragments of 1-6 codepoints (1-4 byte) placed with 0-3 codepoints of noise between them in 2-3 texts, re-ordered on the other sides; the transposition is simple (DirectionalSelector of TextSelectors, one fragment) or complex (one DirectionalSelector annotation per side linked by a DirectionalSelector of AnnotationSelectors); sources are annotations (with or without id) of 1-2 ranges inside one fragment, spanning adjacent fragments (re-segmentation), partly or wholly outside; source side Auto or ByIndex; ids pinned through TransposeConfig. Ground truth from the construction: covered or not, and the expected pieces on every other side. distinct_nontrivial = distinct (simple/complex, covered, multi-range, resegmented, number of sides, stage) reached".into();
     rep.assumptions = vec!["a source is covered iff every position of every source range lies inside a fragment of its side (ranges may run across fragments that are adjacent in the text)".into()];
-    let total: u64 = if p.thorough { 20000 } else { 500 };
+    let total: u64 = if p.thorough { 20000 } else { 1500 };
     for k in p.cases(total) {
         rep.current_case = p.case_coord(k);
         rep.cases += 1;
